@@ -195,8 +195,8 @@ inductive Level where
   deriving DecidableEq, Repr
 
 def Level.str : Level → List Char
-  | .interactive => "int".toList
-  | .moderate => "mod".toList
+  | .interactive => ['i', 'n', 't']
+  | .moderate => ['m', 'o', 'd']
 
 inductive KeyRef where
   | raw
@@ -207,13 +207,16 @@ inductive KeyRef where
 def hexChars (b : Bytes) : List Char :=
   b.flatMap fun x => [Bytes.hexDigit (x.toNat / 16), Bytes.hexDigit (x.toNat % 16)]
 
-def kdfPrefix : List Char := "kdf:argon2i:13:".toList
-def saltPrefix : List Char := "?salt=".toList
+def kdfPrefix : List Char := ['k', 'd', 'f', ':', 'a', 'r', 'g', 'o', 'n', '2', 'i', ':', '1', '3', ':']
+def saltPrefix : List Char := ['?', 's', 'a', 'l', 't', '=']
+
+def rawChars : List Char := ['r', 'a', 'w']
+def noneChars : List Char := ['n', 'o', 'n', 'e']
 
 /-- `raw` / `none` / `kdf:argon2i:13:<int|mod>?salt=<hex>` -/
 def KeyRef.toChars : KeyRef → List Char
-  | .raw => "raw".toList
-  | .unprotected => "none".toList
+  | .raw => rawChars
+  | .unprotected => noneChars
   | .argon2i l salt => kdfPrefix ++ (l.str ++ (saltPrefix ++ hexChars salt))
 
 def KeyRef.toUri (r : KeyRef) : String := String.ofList r.toChars
@@ -222,17 +225,17 @@ def stripPrefix (p s : List Char) : Option (List Char) :=
   if p.isPrefixOf s then some (s.drop p.length) else none
 
 def parseLevel (s : List Char) : Option (Level × List Char) :=
-  match stripPrefix "int".toList s with
+  match stripPrefix Level.interactive.str s with
   | some r => some (.interactive, r)
   | none =>
-    match stripPrefix "mod".toList s with
+    match stripPrefix Level.moderate.str s with
     | some r => some (.moderate, r)
     | none => none
 
 /-- strict parser of the documented form; the salt must be exactly 16 bytes of hex -/
 def KeyRef.parseChars (s : List Char) : Option KeyRef :=
-  if s = "raw".toList then some .raw
-  else if s = "none".toList then some .unprotected
+  if s = rawChars then some .raw
+  else if s = noneChars then some .unprotected
   else
     match stripPrefix kdfPrefix s with
     | none => none
